@@ -173,9 +173,26 @@ func (c *Config) Schema() sod.Schema {
 	s.Cache = c.Cache
 	s.Compress = c.Compress
 	if c.Async {
-		s.Asynchrone(c.Threshold, time.Duration(c.TimeoutMs)*time.Millisecond)
+		s.AsyncWrites = sharedAsync(c.Threshold, c.TimeoutMs)
 	} else if c.OffStruct {
 		s.AsyncWrites = &sod.Async{Enable: false, Threshold: 2, Timeout: 100 * time.Millisecond}
 	}
 	return s
+}
+
+// asyncShare: within a run, schemas with equal async settings carry the very
+// same *sod.Async value - what a program does that builds one Schema value and
+// passes it to Create for several collections, or again after a restart or a
+// settings switch. Reset by Setup; one simulation runs in a process at a time.
+var asyncShare = map[string]*sod.Async{}
+
+func sharedAsync(threshold int, timeoutMs int64) *sod.Async {
+	k := fmt.Sprintf("%d/%d", threshold, timeoutMs)
+	if a, ok := asyncShare[k]; ok {
+		return a
+	}
+	var sc sod.Schema
+	sc.Asynchrone(threshold, time.Duration(timeoutMs)*time.Millisecond)
+	asyncShare[k] = sc.AsyncWrites
+	return sc.AsyncWrites
 }
